@@ -622,6 +622,18 @@ func c14Run(c *fw.Case, env *fw.Env) *fw.Obs {
 				w.sdb.Close()
 				return o
 			}
+			if p.Mode == "fail-discard" && moved > 0 && st1.status != string(ref.TSCommitted) {
+				// some branches carry the transaction already: discarding it now would make the half-applied state
+				// permanent, so Discard has to refuse and leave everything the re-run needs
+				derr := transaction.Discard(w.rs, w.id)
+				st2 := c14Observe(w)
+				o.Ev("discards_of_a_half_committed_transaction", 1)
+				if derr == nil || !st2.txFound || st2.staged != st1.staged {
+					o.Violate("half-committed-transaction-discarded/"+class, "%s: %d of %d branches were moved by the failed commit; Discard then returned %v, transaction record present: %v, staged refs %d -> %d: the transaction can no longer be completed", how, moved, p.K, derr, st2.txFound, st1.staged, st2.staged)
+					w.sdb.Close()
+					return o
+				}
+			}
 			advanced := map[string]bool{}
 			if p.Mode == "fail-advance" && st1.status != string(ref.TSCommitted) {
 				// between the failed attempt and the re-run, ordinary work lands on the branches the attempt already moved
@@ -725,6 +737,9 @@ func init() {
 					l.Add("foreign-reader", c14Params{K: len(mix), Existing: mix, Mode: "foreign-reader"}, 0)
 				}
 				l.Add("reapply", c14Params{K: len(mix), Existing: mix, Mode: "reapply"}, 0)
+				if len(mix) >= 2 {
+					l.Add("fail-discard", c14Params{K: len(mix), Existing: mix, Mode: "fail-discard"}, 0)
+				}
 				if len(mix) >= 2 {
 					l.Add("fail-advance", c14Params{K: len(mix), Existing: mix, Mode: "fail-advance"}, 0)
 				}
